@@ -12,14 +12,14 @@
 (* space and supplies the expected abstract line for the conformance step.    *)
 (***************************************************************************)
 EXTENDS Integers, Sequences, FiniteSets, TLC
-CONSTANTS Classes, MaxLen
+CONSTANTS Classes, MaxLen, Budget
 Absent == <<"-absent-">>
 VARIABLES rec, phase, budget
 vars == <<rec, phase, budget>>
 TextFields == {"message", "target", "module_path", "file", "thread"}
 Default == [level |-> 3, message |-> <<"plain">>, target |-> <<"plain">>, module_path |-> <<"plain">>, file |-> <<"plain">>,
             line |-> 7, thread |-> <<"plain">>, mdc |-> {}]
-Init == rec = Default /\ phase = "grow" /\ budget = 2     \* at most two fields are varied per record
+Init == rec = Default /\ phase = "grow" /\ budget = Budget     \* at most Budget fields are varied per record
 \* replace one text field by the empty string and start growing it
 Pick(f) == /\ phase = "grow" /\ budget > 0 /\ rec[f] = Default[f]
            /\ rec' = [rec EXCEPT ![f] = <<>>] /\ budget' = budget - 1 /\ UNCHANGED phase
